@@ -93,11 +93,11 @@ def run(chk, S: Session):
                 if mode == "pytree":
                     coeffs = res[0] if isinstance(res, (tuple, list)) else None
                     leaves = list(coeffs) if isinstance(coeffs, (list, tuple)) else []
-                    unr = [x for x in leaves if isinstance(x, T.Term) and x.op == "call" and isinstance(x.args[0], T.Term) and x.args[0].op == "unravel_of" and x.args[0].args[0] is inits[0]]
+                    unr = [x for x in leaves if x is inits[0] or (isinstance(x, T.Term) and x.op == "call" and isinstance(x.args[0], T.Term) and x.args[0].op == "unravel_of" and x.args[0].args[0] is inits[0])]
                     r2.require(len(leaves) > 0 and len(unr) == len(leaves), f"{rname} pytree outputs (order {order})", "every coefficient is un-raveled with the unravel of inits[0]",
                                f"outputs: {[T.show(x, 2) for x in leaves[:4]]}", JETEXP, cfg)
                     flat_args = [c for c in T.subterms(res) if is_vf_call(c)]
-                    okw = all(isinstance(j, T.Term) and j.op == "call" and j.args[0].op == "unravel_of" for c in flat_args for j in (c.kwargs.get("jet_coords") or ()))
+                    okw = all(isinstance(j, T.Term) and (j in inits or (j.op == "call" and j.args[0].op == "unravel_of")) for c in flat_args for j in (c.kwargs.get("jet_coords") or ()))
                     r2.require(okw or not flat_args, f"{rname} pytree inputs (order {order})", "the user's vector field receives un-raveled states", "", JETEXP, cfg)
         # guards
         it = S.interp()
